@@ -13,6 +13,7 @@ THEOREMS = [
     ("EG.props.C18", "C18_failure_is_identity_in_spec"),
     ("EG.props.C18", "C18_store_is_sequential_replay"),
     ("EG.props.C18", "C18_refuted_local_per_handle"),
+    ("EG.props.C18", "C18_refuted_regrant_revokes"),
 ]
 HARNESSES = [
     dict(name="mx", pkg="pkg/cluster", files=["harness/cluster/zz_verif_c18_test.go"],
@@ -24,7 +25,9 @@ GROUPS = {"mx": "(check_mx pinned)", "api": "(check_api pinned)"}
 EXPLAIN = {"mx": "(explain_mx pinned)", "api": "(explain_api pinned)"}
 CASES = {"quick": 480, "thorough": 4800}
 RULE = ("mx: goroutines on 1-3 members of a real embedded-etcd cluster contend for one lock name (random think/hold times, "
-        "shared or separate handles, hold-phases with short-timeout contenders followed by a free phase); class adds "
+        "shared or separate handles, hold-phases with short-timeout contenders followed by a free phase, fault phases: the holder "
+        "re-grants its member's lease (keepAlive recovery path) and creates a fresh handle while other members contend); class adds "
+        "lease-regrant(+16) "
         "multi-member(+1) has-failed-Lock(+2) separate-handles(+4) >=3 attempts(+8). "
         "api: create/update/delete/get on 1-4 overlapping names through the real handlers, sequential (in-memory cluster), "
         "concurrent (in-memory cluster with yields) and concurrent on two members of the real cluster, malformed requests; "
@@ -63,7 +66,8 @@ MANIFEST = dict(
 def coq_header(kf_open):
     flags = {k.get("flag") for k in kf_open}
     return ("From EG.lib Require Import Base.\nFrom EG.model Require Import Mutex MutexCheck.\nOpen Scope Z_scope.\n"
-            "Definition pinned : quirks := {| q_local_per_handle := %s |}.\n" % B("q_local_per_handle" in flags))
+            "Definition pinned : quirks := {| q_local_per_handle := %s; q_regrant_revokes := false |}.\n"
+            % B("q_local_per_handle" in flags))
 
 
 def _attempts(inp):
@@ -119,7 +123,7 @@ def encode(c):
 
 def distribution(cases):
     d = dict(groups={}, api_modes={}, api_status={}, api_ops={}, mx_members={}, mx_attempts=0, mx_failed_locks=0,
-             mx_sep_handle_cases=0, mx_hold_phases=0, api_requests=0)
+             mx_sep_handle_cases=0, mx_hold_phases=0, mx_regrant_phases=0, api_requests=0)
     for c in cases:
         d["groups"][c["grp"]] = d["groups"].get(c["grp"], 0) + 1
         i, o = c["in"], c["obs"]
@@ -131,6 +135,7 @@ def distribution(cases):
             d["mx_failed_locks"] += sum(1 for e in (o.get("ev") or []) if e[0] == 2)
             d["mx_sep_handle_cases"] += any(h for _, h, _ in at)
             d["mx_hold_phases"] += sum(1 for ph in i.get("phases") or [] if ph.get("kind") == "hold")
+            d["mx_regrant_phases"] += sum(1 for ph in i.get("phases") or [] if ph.get("regrant"))
         else:
             m = i.get("mode")
             d["api_modes"][m] = d["api_modes"].get(m, 0) + 1
